@@ -1,12 +1,12 @@
 #!/bin/bash
-# collect_seed.sh <prop> <round-suffix> : copy /tmp/seed5/<prop>/_seed into seeded/<prop>-<suffix>, evaluate (demo clean/patched, suite, all quick checks), remove the worktree
+# collect_seed.sh <prop> <round-suffix> : copy /tmp/${SEEDROOT:-seed5}/<prop>/_seed into seeded/<prop>-<suffix>, evaluate (demo clean/patched, suite, all quick checks), remove the worktree
 set -e
-P=$1; SUF=$2; SRC=/tmp/seed5/$P/_seed; DST=/verif/seeded/$P-$SUF
+P=$1; SUF=$2; SRC=/tmp/${SEEDROOT:-seed5}/$P/_seed; DST=/verif/seeded/$P-$SUF
 mkdir -p $DST
 cp $SRC/patch.diff $SRC/demo.py $SRC/meta.json $DST/
 [ -f $SRC/build_cpp.py ] && cp $SRC/build_cpp.py $DST/
-git -C /repo worktree remove --force /tmp/seed5/$P 2>/dev/null || true
-rm -rf /tmp/seed5/$P
+git -C /repo worktree remove --force /tmp/${SEEDROOT:-seed5}/$P 2>/dev/null || true
+rm -rf /tmp/${SEEDROOT:-seed5}/$P
 cd /verif && /venv/bin/python harness/seedtest.py seeded/$P-$SUF --checks all $3 2>&1 | python3 -c "
 import sys,json
 t=sys.stdin.read()
